@@ -657,6 +657,35 @@ TEXT_EDITS = [
     ('opgraph.py', "                    edge_active = edge_autop.active(i) if isinstance(edge_autop.active, Callable) else edge_autop.active",
      "                    edge_active = edge_autop.active(i) if callable(edge_autop.active) else edge_autop.active",
      'silent', ['C17'], 'from_automaton: callable(.) for isinstance(., Callable) (benign)'),
+    ('mps.py', "    if svd_distr == 'left':\n        A0 = A0 * sigma\n    elif svd_distr == 'right':",
+     "    if svd_distr not in ('left', 'right', 'sqrt'):\n        raise ValueError('svd_distr parameter must be \"left\", \"right\" or \"sqrt\".')\n    if svd_distr == 'left':\n        A0 = A0 * sigma\n    elif svd_distr == 'right':",
+     'silent', ['C02', 'C03', 'C12'], 'split_mps_tensor: option value also validated before the case distinction (benign)'),
+    ('mps.py', "    elif svd_distr == 'sqrt':\n        s = np.sqrt(sigma)\n        A0 = A0 * s\n        A1 = A1 * s[:, None, None]\n    else:\n        raise ValueError('svd_distr parameter must be \"left\", \"right\" or \"sqrt\".')\n",
+     "    else:\n        s = np.sqrt(sigma)\n        A0 = A0 * s\n        A1 = A1 * s[:, None, None]\n",
+     'violation', ['C12'], 'split_mps_tensor: every unknown option value treated as sqrt'),
+    ('mps.py', "        mps.A[-1] *= v[0, 0]\n        return mps", "        mps.A[-1] = mps.A[-1] * v[0, 0]\n        return mps",
+     'silent', ['C02', 'C13'], 'from_vector: trailing factor absorbed by a written-out product (benign)'),
+    ('mpo.py', "    for i in range(L + 1):\n        op.qD[i] = qnumber_flatten([op0.qD[i], op1.qD[i]])",
+     "    op.qD = [qnumber_flatten([op0.qD[i], op1.qD[i]]) for i in range(L + 1)]",
+     'silent', ['C02', 'C03'], 'multiply_mpo: label list built by one comprehension (benign)'),
+    ('mpo.py', "    for i in range(L + 1):\n        op.qD[i] = qnumber_flatten([op0.qD[i], op1.qD[i]])",
+     "    op.qD = [qnumber_flatten([op1.qD[i], op0.qD[i]]) for i in range(L + 1)]",
+     'violation', ['C02', 'C03'], 'multiply_mpo: label list built by one comprehension, operands in the wrong order'),
+    ('operation.py', "    qD = [qnumber_flatten((op.qD[i], psi.qD[i])) for i in range(psi.nsites + 1)]",
+     "    qD = [qnumber_flatten((qo, qp)) for qo, qp in zip(op.qD, psi.qD)]",
+     'silent', ['C02', 'C03'], 'apply_operator: labels by zip over the two label lists (benign)'),
+    ('operation.py', "    qD = [qnumber_flatten((op.qD[i], psi.qD[i])) for i in range(psi.nsites + 1)]",
+     "    qD = [qnumber_flatten((qp, qo)) for qo, qp in zip(op.qD, psi.qD)]",
+     'violation', ['C02', 'C03'], 'apply_operator: labels by zip, flattened in the wrong order'),
+    ('opgraph.py', "        chains = [chain.padded(length, oid_identity) for chain in chains if chain.coeff != 0]",
+     "        chains = [chain.padded(length, oid_identity) for chain in chains if not chain.coeff == 0]",
+     'silent', ['C05'], 'from_opchains: zero filter written as `not .. == 0` (benign)'),
+    ('mps.py', "        mps.qD[ 0] = mps0.qD[ 0].copy()\n        mps.qD[-1] = mps0.qD[-1].copy()",
+     "        mps.qD[ 0] = mps1.qD[ 0].copy()\n        mps.qD[-1] = mps1.qD[-1].copy()",
+     'silent', ['C02', 'C03', 'C19'], 'add_mps: boundary labels copied from the second operand, which is asserted equal (benign)'),
+    ('mps.py', "        mps.qD[ 0] = mps0.qD[ 0].copy()\n        mps.qD[-1] = mps0.qD[-1].copy()",
+     "        mps.qD[ 0] = mps0.qD[ 0][:]\n        mps.qD[-1] = mps0.qD[-1][:]",
+     'violation', ['C19'], 'add_mps: boundary labels taken as views of the operand (slicing an ndarray does not copy)'),
 ]
 
 
